@@ -41,3 +41,24 @@ var X I
 //
 //go:noinline
 func CallX(n int) int { return X.A(n) }
+
+// FA is a function whose result has the empty interface type (its sequences hold boxed values).
+//
+//go:noinline
+func FA(n int) interface{} {
+	Calls++
+	if n > 1000 {
+		return n*31 - Calls
+	}
+	return -3000 - n
+}
+
+// CallFA unboxes FA's result (anything but an int becomes -1).
+//
+//go:noinline
+func CallFA(n int) int {
+	if v, ok := FA(n).(int); ok {
+		return v
+	}
+	return -1
+}
